@@ -38,6 +38,10 @@ var c05Creds = []c05Cred{
 	{"login(ttl=100,max=1000)", 1000 * time.Second, 0},
 	{"login(period=100,explicit_max=1000)", 1000 * time.Second, 100 * time.Second},
 	{"secret(ttl=100,max=1000)", 1000 * time.Second, 0},
+	// backends that answer a renewal with a newly built Secret / Auth (zero issue
+	// time) instead of echoing the one in the request
+	{"secret-fresh(ttl=100,max=1000)", 1000 * time.Second, 0},
+	{"login-fresh(ttl=100,max=1000)", 1000 * time.Second, 0},
 	// the same kinds issued inside a child namespace (lease ids carry the namespace id, the
 	// records live in the namespace's storage area, renewals are routed by that suffix)
 	{"ns1:token(ttl=100,explicit_max=1000)", 1000 * time.Second, 0},
@@ -95,6 +99,10 @@ func c05Create(s *Sys, c c05Cred) (*c05Sub, error) {
 		resp, err = s.Req("", logical.UpdateOperation, "auth/ra/login", map[string]interface{}{"policies": []string{"p05"}, "ttl": 100, "max_ttl": 1000})
 	case c.Name == "login(period=100,explicit_max=1000)":
 		resp, err = s.Req("", logical.UpdateOperation, "auth/ra/login", map[string]interface{}{"policies": []string{"p05"}, "period": 100, "explicit_max_ttl": 1000})
+	case c.Name == "secret-fresh(ttl=100,max=1000)":
+		resp, err = s.Req(s.Root, logical.ReadOperation, "rec/lease/fresh/x", map[string]interface{}{"ttl": 100, "max_ttl": 1000})
+	case c.Name == "login-fresh(ttl=100,max=1000)":
+		resp, err = s.Req("", logical.UpdateOperation, "auth/ra/login", map[string]interface{}{"policies": []string{"p05"}, "ttl": 100, "max_ttl": 1000, "fresh": true})
 	case strings.HasPrefix(c.Name, "secret"):
 		resp, err = s.Req(s.Root, logical.ReadOperation, "rec/lease/x", map[string]interface{}{"ttl": 100, "max_ttl": 1000})
 	default:
